@@ -1,6 +1,3 @@
-//@unit stats
-//@serves C17
-//@backend verus
 // Per-region bigWig statistics: utils::misc::stats_for_bed_item.
 // The property (C17): for a BED region [start,end) the function reports region size, covered
 // bases, sum, mean over the region, mean over covered bases, minimum and maximum exactly as
@@ -10,20 +7,57 @@ use vstd::prelude::*;
 use vstd::std_specs::ops::*;
 use vstd::std_specs::convert::FromSpec;
 verus! {
-//@include ../_shared/floats.rs
+// ---- shared float prelude -------------------------------------------------
+// Rust float operators are total; Verus models their results as uninterpreted
+// functions (`add_spec`, `mul_spec`, `from_spec`, ...).  The axioms below say
+// only (1) the operators have no precondition and (2) the exec operator returns
+// the value of its spec function (determinism).  Nothing numerical is assumed.
+mod float_ax {
+use vstd::prelude::*;
+use vstd::std_specs::ops::*;
+use vstd::std_specs::convert::FromSpec;
+pub broadcast axiom fn ax_f64_mul_total(a: f64, b: f64) ensures #[trigger] a.mul_req(b);
+pub broadcast axiom fn ax_f64_add_total(a: f64, b: f64) ensures #[trigger] a.add_req(b);
+pub broadcast axiom fn ax_f64_sub_total(a: f64, b: f64) ensures #[trigger] a.sub_req(b);
+pub broadcast axiom fn ax_f64_div_total(a: f64, b: f64) ensures #[trigger] a.div_req(b);
+pub broadcast axiom fn ax_f32_add_total(a: f32, b: f32) ensures #[trigger] a.add_req(b);
+pub broadcast axiom fn ax_f32_sub_total(a: f32, b: f32) ensures #[trigger] a.sub_req(b);
+pub broadcast group float_total { ax_f64_mul_total, ax_f64_add_total, ax_f64_sub_total, ax_f64_div_total, ax_f32_add_total, ax_f32_sub_total }
+pub axiom fn float_det()
+    ensures
+        <f64 as AddSpec<f64>>::obeys_add_spec(), <f64 as MulSpec<f64>>::obeys_mul_spec(),
+        <f64 as SubSpec<f64>>::obeys_sub_spec(), <f64 as DivSpec<f64>>::obeys_div_spec(),
+        <f32 as AddSpec<f32>>::obeys_add_spec(), <f32 as SubSpec<f32>>::obeys_sub_spec(),
+        <f64 as FromSpec<u32>>::obeys_from_spec(), <f64 as FromSpec<f32>>::obeys_from_spec();
+}
+broadcast use float_ax::float_total;
+pub uninterp spec fn fmin(a: f64, b: f64) -> f64;
+pub uninterp spec fn fmax(a: f64, b: f64) -> f64;
+pub assume_specification [f64::min] (a: f64, b: f64) -> (r: f64) ensures r == fmin(a, b);
+pub assume_specification [f64::max] (a: f64, b: f64) -> (r: f64) ensures r == fmax(a, b);
 
-//@extract struct bigtools/src/bbi.rs Value
-//@rule R8
-//@end
+#[derive(Copy, Clone)]
+pub struct Value {
+    pub start: u32,
+    pub end: u32,
+    pub value: f32,
+}
 // `rest: String` is carried along untouched (the function never looks at it); the derive is
 // dropped because Verus cannot derive Clone through String.
-//@extract struct bigtools/src/bbi.rs BedEntry
-//@rule R8
-//@sub /#\[derive\(Clone\)\]\n/ => ""
-//@end
-//@extract struct bigtools/src/utils/misc.rs BigWigAverageOverBedEntry
-//@rule R8
-//@end
+pub struct BedEntry {
+    pub start: u32,
+    pub end: u32,
+    pub rest: String,
+}
+pub struct BigWigAverageOverBedEntry {
+    pub size: u32,
+    pub bases: u32,
+    pub sum: f64,
+    pub mean0: f64,
+    pub mean: f64,
+    pub min: f64,
+    pub max: f64,
+}
 
 // ---------------- shims (assumed; listed in NOTES.md) ----------------
 // f64 constants: Verus has no model of core::f64::{MAX,MIN,NAN}.  Each becomes a call to an
@@ -148,72 +182,103 @@ proof fn lemma_step(v: Seq<Value>, k: int)
     assert(v.take(k + 1).last() == v[k]);
 }
 
-//@extract fn bigtools/src/utils/misc.rs stats_for_bed_item
-//@rule R8
-//@rule R7 min=1
-//@rule R5 min=2
-//@sub /<R: BBIFileRead>/ => ""
-//@sub /BigWigRead<R>/ => BigWigRead
-//@sub /bigwig\s*\.get_interval\(([^()]*)\)\?\s*\.collect::<Result<Vec<_>, _>>\(\)/ => get_interval_vec(bigwig, \1)
-//@sub /Err\(e\) => return Err\(e\.into\(\)\)/ => Err(e) => return Err(e)
-//@sub /f64::MAX/ => f64_max()
-//@sub /f64::MIN/ => f64_min()
-//@sub /f64::NAN/ => f64_nan()
-//@ret r
-//@sig
+pub fn stats_for_bed_item(
+    chrom: &str,
+    entry: BedEntry,
+    bigwig: &mut BigWigRead,
+) -> (r: Result<BigWigAverageOverBedEntry, BBIReadError>)
     requires
-        [[L: pre]]
+        
         // `let size = end - start` is an unchecked u32 subtraction: the region must not be inverted
         entry.start <= entry.end,
     ensures
-        [[L: queries_the_region]]
+        
         final(bigwig).q_chrom() == chrom@ && final(bigwig).q_start() == entry.start && final(bigwig).q_end() == entry.end,
-        [[L: error_iff_reader_error]]
+        
         r.is_err() <==> final(bigwig).failed(),
-        [[L: size_is_region_length]]
+        
         r matches Ok(out) ==> out.size == entry.end - entry.start,
-        [[L: bases_is_sum_of_lengths]]
+        
         r matches Ok(out) ==> out.bases == tot(final(bigwig).answer()),
-        [[L: bases_at_most_size]]
+        
         r matches Ok(out) ==> out.bases <= out.size,
-        [[L: sum_is_weighted_fold]]
+        
         r matches Ok(out) ==> out.sum == fold_sum(final(bigwig).answer()),
-        [[L: mean0_is_sum_over_size]]
+        
         r matches Ok(out) ==> out.mean0 == fold_sum(final(bigwig).answer()).div_spec(f64::from_spec(out.size)),
-        [[L: nan_when_nothing_covered]]
+        
         r matches Ok(out) ==> (tot(final(bigwig).answer()) == 0 ==> out.mean == f64_nan_c() && out.min == f64_nan_c() && out.max == f64_nan_c()),
-        [[L: mean_is_sum_over_bases]]
+        
         r matches Ok(out) ==> (tot(final(bigwig).answer()) != 0 ==> out.mean == fold_sum(final(bigwig).answer()).div_spec(f64::from_spec(out.bases))),
-        [[L: min_is_fold_of_min]]
+        
         r matches Ok(out) ==> (tot(final(bigwig).answer()) != 0 ==> out.min == fold_min(final(bigwig).answer())),
-        [[L: max_is_fold_of_max]]
+        
         r matches Ok(out) ==> (tot(final(bigwig).answer()) != 0 ==> out.max == fold_max(final(bigwig).answer())),
-//@open
+{
     proof { float_ax::float_det(); }
-//@loop 1
+
+    let start = entry.start;
+    let end = entry.end;
+
+    let interval = get_interval_vec(bigwig, chrom, start, end);
+    let interval = match interval {
+        Ok(i) => i,
+        Err(e) => return Err(e),
+    };
+
+    let mut bases = 0;
+    let mut sum = 0.0;
+    let mut min = f64_max();
+    let mut max = f64_min();
+    for i__1 in 0..interval.len() 
         invariant
-            [[L: loop/frame]]
+            
             start <= end, clipped_ordered(interval@, start, end),
-            [[L: loop/bases]]
+            
             bases == tot(interval@.take(i__1 as int)),
-            [[L: loop/sum]]
+            
             sum == fold_sum(interval@.take(i__1 as int)),
-            [[L: loop/min_max]]
+            
             min == fold_min(interval@.take(i__1 as int)),
             max == fold_max(interval@.take(i__1 as int)),
-//@at /^\s*let num_bases = / before
+{ let val = &interval[i__1];
+
         proof {
             float_ax::float_det();
             lemma_step(interval@, i__1 as int);
             lemma_clipped_prefix(interval@, start, end, i__1 as int + 1);
-            lemma_tot_bound(interval@.take(i__1 as int + 1), start, end); [[L: loop/bases_cannot_overflow]]
+            lemma_tot_bound(interval@.take(i__1 as int + 1), start, end); 
         }
-//@at /^\s*let size = / before
+        let num_bases = val.end - val.start;
+        bases = bases + (1);
+        sum = sum + (f64::from(num_bases) * f64::from(val.value));
+        min = min.min(f64::from(val.value));
+        max = max.max(f64::from(val.value));
+    }
+
     proof {
         assert(interval@.take(interval@.len() as int) =~= interval@);
         lemma_tot_bound(interval@, start, end);
     }
-//@end
+    let size = end - start;
+    let mean0 = sum / f64::from(size);
+    let (mean, min, max) = if bases == 0 {
+        (f64_nan(), f64_nan(), f64_nan())
+    } else {
+        (sum / f64::from(bases), min, max)
+    };
+
+    Ok(BigWigAverageOverBedEntry {
+        size,
+        bases,
+        sum,
+        mean0,
+        mean,
+        min,
+        max,
+    })
+}
 
 } // verus!
 fn main() {}
+
